@@ -65,8 +65,8 @@ DEVIATIONS = {
     "ProbeBoundedByRecords": (dict(kind="box", N=12, C=5, k=1, p=0), ALL_OPS, {"CreateNeverRejected"}),
     "GlobalPixelRng": (dict(kind="healpix", N=3, C=2, k=0, p=0), ALL_OPS, {"Reproducible", "SeedControlled", "ReseedRestores"}),
 }
-# deviations that do not falsify C16 for the histories replayed (alternative probe rules)
-PROBE_RULES = ("ProbeBoundedByRecords", "ProbeClampedToRecords")
+# design variants of the rule for probes larger than the catalog (selected by detect_probe_rule)
+PROBE_RULES = ("ProbeBoundedByRecords", "ProbeClampedToRecords", "DefaultProbeClampedToRecords")
 
 MC_TEMPLATE = """---- MODULE RandomGen_MC ----
 EXTENDS RandomGen, Json
@@ -875,9 +875,9 @@ def size_scenarios(quick: bool) -> list:
     return uniq
 
 
-def detect_probe_rule(yaw) -> tuple:
-    """Which get_probe(n > N) rule does the tree implement?  (micro probe of the real code;
-    selects the matching design variant of the spec for the replays)"""
+def detect_probe_rule(yaw, root: Path) -> tuple:
+    """Which rule for probes larger than the catalog does the tree implement?  (two micro probes of
+    the real code; selects the matching design variant of the spec for the replays)"""
     from yaw.catalog.readers import RandomReader
     from yaw.randoms import BoxRandoms
 
@@ -885,8 +885,31 @@ def detect_probe_rule(yaw) -> tuple:
     try:
         got = len(rd.get_probe(8))
     except ValueError:
+        got = None
+    if got == 8:
+        return ()
+    if got == 5:
+        return ("ProbeClampedToRecords",)
+    # get_probe refuses n > N; is the library-chosen default probe of from_random(patch_num=k) limited to N?
+    gen = traced_class(BoxRandoms)(0, 40, -20, 20, seed=1)
+    take_log(gen)
+    try:
+        yaw.Catalog.from_random(root / "probe_rule", gen, 12, patch_num=1, chunksize=5, max_workers=1)
+    except ValueError:
         return ("ProbeBoundedByRecords",)
-    return ("ProbeClampedToRecords",) if got == 5 else ()
+    finally:
+        shutil.rmtree(root / "probe_rule", ignore_errors=True)
+    calls = [x[1] for x in take_log(gen) if x[0] == "call"]
+    if calls and calls[0] == 12:
+        return ("ProbeBoundedByRecords", "DefaultProbeClampedToRecords")
+    return ("ProbeBoundedByRecords",)
+
+
+def invariants_for(observed: tuple) -> list:
+    """CreateNeverRejected is the one invariant the code as found violates (ProbeBoundedByRecords
+    without a limited default probe); everything else must hold for the variant replayed."""
+    rejects = "ProbeBoundedByRecords" in observed and "DefaultProbeClampedToRecords" not in observed
+    return [i for i in IDEAL_INVS if not (rejects and i == "CreateNeverRejected")]
 
 
 def model_check(ctx, observed: tuple) -> dict:
@@ -894,7 +917,7 @@ def model_check(ctx, observed: tuple) -> dict:
     plan = history_plan(quick)
     ssc = size_scenarios(quick)
     size_ops = ("from_random", "reader", "iter", "probe")
-    invs_obs = [i for i in IDEAL_INVS if i != "CreateNeverRejected"] if observed else IDEAL_INVS
+    invs_obs = invariants_for(observed)
     fs = (3,) if quick else (0, 3)
     hp_plan = [([dict(kind="healpix", N=5, C=2, k=0, p=0)], 3 if quick else 4), ([dict(kind="healpix", N=12, C=5, k=1, p=10)], 2 if quick else 3)]
     jobs, roles = [], []
@@ -915,6 +938,9 @@ def model_check(ctx, observed: tuple) -> dict:
                                     max_ops=depth, print_hist=True, invariants=invs_obs))
     add(("clamped", 0), gen_job("RandomGen variant ProbeClampedToRecords (admissible alternative)", [DEVIATIONS["ProbeBoundedByRecords"][0]],
                                 dev=("ProbeClampedToRecords",), max_ops=2, liveness=False))
+    add(("clamped", 1), gen_job("RandomGen variant ProbeBoundedByRecords+DefaultProbeClampedToRecords (admissible alternative)",
+                                [DEVIATIONS["ProbeBoundedByRecords"][0], dict(kind="box", N=12, C=5, k=1, p=13)],
+                                dev=("ProbeBoundedByRecords", "DefaultProbeClampedToRecords"), max_ops=2, liveness=False))
     if observed:
         # 2. the design variant the tree implements for probes larger than the catalog
         for i, (hsc, depth) in enumerate(plan):
@@ -1313,7 +1339,7 @@ def validate_traces(ctx, traces, observed, label) -> list:
             for t in traces:
                 ops = [dict(op=o["op"], a=o["a"], out=o["out"], prn=o["prn"], resn=o["resn"], ev=o["ev"]) for o in t["ops"]]
                 f.write(json.dumps(dict(sc=t["sc"], nops=t["nops"], ops=ops)) + "\n")
-        invs = [i for i in IDEAL_INVS if i not in ("TypeOK",) and not (observed and i == "CreateNeverRejected")]
+        invs = [i for i in invariants_for(observed) if i != "TypeOK"]
         consts = dict(Scenarios="{}", DefProbe="<- DefProbeDef", Seeds="{1, 2}", CallSizes=tla_set(sizes), FrameSizes=tla_set(sizes), ProbeSizes=tla_set(psizes),
                       Ops=tla_set(ALL_OPS), MaxOps=1000, DefaultChunk=DEFAULT_CHUNK, Deviations=tla_set(sorted(observed)))
         cfg = tlc.make_cfg(spec="TSpec", constants=consts, invariants=["Progress"] + invs, constraints=["Consistent"],
@@ -1491,7 +1517,8 @@ def run(ctx) -> None:
             replay_file(ctx, yaw, root)
         return
 
-    observed = detect_probe_rule(yaw)
+    with scratch("c16p_") as root:
+        observed = detect_probe_rule(yaw, root)
     ctx.extra["probe_rule_of_the_tree"] = list(observed) or ["unbounded (ideal)"]
     mc = model_check(ctx, observed)
 
@@ -1510,9 +1537,9 @@ def run(ctx) -> None:
                         example="from_random(N=12, chunksize=4) ; from_random again ; RandomReader pass: each 12 records in chunks 4,4,4"))
         # histories: full depth on rotating configurations
         deadline = t0 + (100 if quick else 1500)
-        per = 1 if quick else 2
         c2 = replay_histories(ctx, worlds, mc["hist"], "histories", deadline=deadline,
-                              world_pick=lambda i, sc: [worlds["box"][(i * 3 + j * 5 + ctx.seed) % (8 if sc["k"] else nbox)] for j in range(per)])
+                              world_pick=lambda i, sc: [worlds["box"][(i * 3 + j * 5 + ctx.seed) % (8 if sc["k"] else nbox)]
+                                                        for j in range(1 if (quick or i == 0) else 2)])
         allh = [x for r in mc["hist"] for x in printed_hist(r)]
         for sc, hist in allh[:: max(1, len(allh) // 3)][:3]:
             ctx.sample(dict(scenario=sc, history=[op_text(e, sc) for e in hist],
